@@ -210,6 +210,10 @@ def _malformed_plain(rng) -> bytes:
         b64(b'user1\0pass1'),          # one NUL
         b64(b'\0user1\0pass1\0x'),     # three NULs
         b64(b'\0user1\xff\0pass1'),    # not UTF-8
+        # a line that is NOT base64 but hides the right credentials between
+        # characters a lenient decoder throws away
+        b'!!!' + good, b'*' + good, good[:5] + b' ' + good[5:], b'=' + good,
+        good[:8] + b'!' + good[8:],
     ])
 
 
@@ -240,7 +244,11 @@ def loginmech_responses(cr: dict, rng) -> list[bytes]:
     if k == 'malformed':
         return rng.choice([[b'!!!', b64(b'pass1')], [b64(b'user1'), b'!!!'],
                            [b64(b'user1')[:-1], b64(b'pass1')],
-                           [b64(b'user1\xff'), b64(b'pass1')]])
+                           [b64(b'user1\xff'), b64(b'pass1')],
+                           [b'!!!' + b64(b'user1'), b64(b'pass1')],
+                           [b64(b'user1'), b'=' + b64(b'pass1')],
+                           [b64(b'user1'), b64(b'pass1')[:3] + b' '
+                            + b64(b'pass1')[3:]]])
     if k == 'cancel':
         return [b'*']
     if k == 'cancel2':
